@@ -24,7 +24,8 @@ R = W.ROOT
 RULE = ('histories of attribute operations (path/files/filepaths setters and list mutations, '
         'glob filter edits, name, piece_size, piece_size_min/max, generate, comment) on a fresh '
         'Torrent over five content trees with the real default bounds: corpus + enumerated '
-        '(hash-then-every-pair-of-operations) + random (length <= 8 quick, <= 14 thorough); '
+        '(hash-then-every-pair-of-operations, also from a piece length of 32 MiB under an explicit '
+        'maximum followed by a bound reset) + random (length <= 8 quick, <= 14 thorough); '
         'non-trivial = piece hashes were present before at least one operation other than '
         'generate/comment; distinct = distinct operation sequence.  calculate_piece_size: '
         'boundary sizes of every power of two and threshold, distinct = (size, min, max)')
@@ -63,19 +64,8 @@ def match_bound_across(case, observed, finding):
             and observed['pre']['pmin'] <= observed['pre']['pmax'])
 
 
-def match_max_reset(case, observed, finding):
-    """D09c: the first deviation is piece length > maximum directly after piece_size_max = None
-    with a piece length above the class default maximum and bounds that do not cross."""
-    pre = observed.get('pre')
-    op = observed['op']
-    return (observed.get('codes') == ['pl>max'] and op['k'] == 'setMax' and op['v'] is None
-            and pre is not None and pre['pl'] is not None and pre['pl'] > W.DEFAULT_MAX
-            and pre['pmin'] <= W.DEFAULT_MAX)
-
-
 MATCHERS = {
     'bound_assigned_across_other_bound': match_bound_across,
-    'max_reset_below_piece_size': match_max_reset,
 }
 
 # ---------------------------------------------------------------------------------------------
@@ -244,8 +234,29 @@ PREFIXES = [
 ]
 
 
-def enumerated(ctx):
+# region of the repaired D09c: a piece length above the class default maximum (32 MiB under an
+# explicit maximum of 32 MiB), hashed; every operation, and every operation after a bound reset
+BIG_PREFIX = [{'k': 'setMax', 'v': 2048 * K}, {'k': 'setPath', 'p': R + ['F5']},
+              {'k': 'setPieceSize', 'v': 2048 * K}, {'k': 'generate'}]
+RESETS = [{'k': 'setMax', 'v': None}, {'k': 'setMin', 'v': None}]
+
+
+def enumerated_big(ctx):
     out = []
+    for a in ALPHABET:
+        out.append(BIG_PREFIX + [a])
+        out.append(BIG_PREFIX[:3] + [a])
+        for b in (ALPHABET if ctx.thorough else RESETS):
+            out.append(BIG_PREFIX + [a, b])
+    for r in RESETS:
+        for b in ALPHABET:
+            out.append(BIG_PREFIX + [r, b])
+            out.append(BIG_PREFIX + [r, {'k': 'generate'}, b])
+    return out
+
+
+def enumerated(ctx):
+    out = enumerated_big(ctx)
     for a in ALPHABET:
         out.append([a])
         for b in ALPHABET:
@@ -367,6 +378,13 @@ def evaluate(ctx, drv, cases):
                 break
             if st['obs']['ready']:
                 ctx.dist['ready-and-verified'] += 1
+            if op['k'] in ('setMin', 'setMax') and op['v'] is None:
+                # region of the repaired D09c: a bound reset with a piece length present (clamp runs)
+                pre = impl['steps'][k - 1]['obs'] if k else impl['init']
+                if pre and pre.get('pl'):
+                    ctx.dist['bound-reset-with-piece-length'] += 1
+                    if op['k'] == 'setMax' and pre['pl'] > W.DEFAULT_MAX:
+                        ctx.dist['max-reset-clamped-piece-length'] += 1
         if c.get('witness') and not reproduced:
             if c['witness'] not in ctx.not_reproduced:
                 ctx.not_reproduced.append(c['witness'])
